@@ -255,6 +255,13 @@ def nnx_combine(comb, c1, c2, p0, vt, tg):
 PATHS = [('k0', 'k1'), ('k1', 3), ('k2', 'k0')]
 
 
+def nnx_split_types(c0, c1, vt0, vt1, which):
+  """plain type filters, incl. superclass-before-subclass orders"""
+  idx = [0, 5, 6, 7]      # positions in SPLIT_LEAVES: Param, BatchStat, Variable,
+  return nnx_split(2, pick(idx, c0), pick(idx, c1), 0, 2, vt0, vt1, 0, 0, 0, 0,
+                   which)     # _SubParam
+
+
 def nnx_split(n, c0, c1, c2, nf, vt0, vt1, vt2, tg0, tg1, tg2, which):
   """_split_state / State.split / filter / split_flat_state: first-match partition,
   nothing lost or duplicated, `...`/True before the end raises."""
@@ -383,10 +390,17 @@ def obligations(tier):
          split=('comb',), timeout=240, funcs=NF_,
          bounds='%d combinators (Any/All/Not/list/tuple, depth<=3) over leaf pairs '
                 'from %s' % (len(COMB), [l[0] for l in LEAVES[:red.hi + 1]])),
+      Ob('nnx_split_type_filters', nnx_split_types,
+         dict(c0=I(0, 3), c1=I(0, 3), vt0=I(0, 4), vt1=I(0, 4), which=I(0, 3)),
+         split=('which', 'c0'), timeout=300, funcs=NF_,
+         bounds='2 entries of 5 Variable types (incl. a subclass of Param), 2 plain '
+                'type filters from {Param, BatchStat, Variable, subclass}: first '
+                'match wins also when an earlier filter is a superclass of a later '
+                'one'),
       Ob('nnx_split', nnx_split,
-         dict(n=I(2, 2) if quick else I(1, 2), c0=I(0, len(SPLIT_LEAVES) - 1),
-              c1=I(0, len(SPLIT_LEAVES) - 1), c2=I(0, NRED - 1),
-              nf=I(1, 2 if quick else 3), vt0=I(0, 4), vt1=I(0, 4), vt2=I(0, 2),
+         dict(n=I(2, 2) if quick else I(1, 2), c0=I(0, NRED - 1),
+              c1=I(0, NRED - 1), c2=I(0, NRED - 1),
+              nf=I(1, 2 if quick else 3), vt0=I(0, 2), vt1=I(0, 2), vt2=I(0, 2),
               tg0=I(0, 1), tg1=I(0, 1), tg2=I(0, 1), which=I(0, 3)),
          split=('which', 'nf', 'c0') if quick else ('which', 'nf', 'c0', 'c1'),
          timeout=300, funcs=NF_,
